@@ -981,4 +981,146 @@ example : rxFull.Matches "-1m 30s".toList := (matchFull_accepts_iff_rx _).mp (by
 example : ¬ rxFull.Matches "1ns ".toList := fun h => by
   have := (matchFull_accepts_iff_rx _).mpr h; revert this; decide
 
+/-! ## Deepening round D: what a result reports as its begin and end; chains of any depth -/
+
+/-- The start a sliced continuous channel reports is the first grid timestamp at or after the window's start
+    (and never before the channel's own start): it lies on the grid, is `≥ a`, and no earlier grid point is. -/
+theorem alignedStart_least (c : Cont) (hdt : 0 < c.dt) (a : Int) :
+    (∃ k : Nat, alignedStart c a = c.start + k * c.dt) ∧ a ≤ alignedStart c a ∧
+    ∀ j : Nat, a ≤ c.start + j * c.dt → alignedStart c a ≤ c.start + j * c.dt := by
+  rw [alignedStart_eq c hdt a]
+  refine ⟨⟨_, rfl⟩, ?_, ?_⟩
+  · by_cases h : 0 ≤ cdiv (a - c.start) c.dt
+    · have : ((cdiv (a - c.start) c.dt).toNat : Int) = cdiv (a - c.start) c.dt := Int.toNat_of_nonneg h
+      rw [this]
+      have := (cdiv_le_iff hdt (cdiv (a - c.start) c.dt)).mp (Int.le_refl _)
+      omega
+    · have h0 : (cdiv (a - c.start) c.dt).toNat = 0 := by omega
+      rw [h0]
+      have : cdiv (a - c.start) c.dt ≤ 0 := by omega
+      have := (cdiv_le_iff hdt 0).mp this
+      simp at this ⊢
+      omega
+  · intro j hj
+    have h1 : cdiv (a - c.start) c.dt ≤ j := (cdiv_le_iff hdt j).mpr (by omega)
+    have h2 : ((cdiv (a - c.start) c.dt).toNat : Int) ≤ j := by omega
+    have := Int.mul_le_mul_of_nonneg_right h2 (Int.le_of_lt hdt)
+    omega
+
+/-- First and last timestamp of a non-empty continuous channel: `start` and `stop - dt`. -/
+theorem samplesFrom_ends (dt : Int) (v : Int) (vs : List Int) (t0 : Int) :
+    (samplesFrom t0 dt (v :: vs)).head?.map (·.1) = some t0 ∧
+    (samplesFrom t0 dt (v :: vs)).getLast?.map (·.1) = some (t0 + vs.length * dt) := by
+  refine ⟨rfl, ?_⟩
+  induction vs generalizing t0 v with
+  | nil => simp [samplesFrom]
+  | cons w ws ih =>
+    have := ih w (t0 + dt)
+    simp only [samplesFrom] at this ⊢
+    rw [List.getLast?_cons_cons, this]
+    simp only [List.length_cons, Option.some.injEq]
+    rw [Int.natCast_add, Int.add_mul]; omega
+
+/-- What the result of slicing reports as its begin and end, per kind (these are what `None` and relative time
+    strings mean at the next level): continuous — the first kept timestamp and one period after the last kept one;
+    time series — the first kept timestamp and one nanosecond after the last kept one. -/
+theorem cont_bounds_tight (c : Cont) (hne : c.data ≠ []) :
+    c.samples.head?.map (·.1) = some c.start ∧ c.samples.getLast?.map (·.1) = some (c.stop - c.dt) := by
+  cases hd : c.data with
+  | nil => exact absurd hd hne
+  | cons v vs =>
+    have := samplesFrom_ends c.dt v vs c.start
+    unfold Cont.samples Cont.stop
+    rw [hd]
+    refine ⟨this.1, ?_⟩
+    rw [this.2]
+    simp only [List.length_cons, Option.some.injEq]
+    rw [Int.natCast_add, Int.add_mul]; omega
+
+theorem ts_bounds_tight (l : List Sample) (hne : l ≠ []) :
+    l.head?.map (·.1) = some (Src.ts l).start ∧ l.getLast?.map (·.1 + 1) = some (Src.ts l).stop := by
+  cases l with
+  | nil => exact absurd rfl hne
+  | cons x xs =>
+    simp only [Src.start, Src.stop]
+    constructor
+    · simp
+    · cases h : (x :: xs).getLast? with
+      | none => simp at h
+      | some y => simp
+
+/-- Two nested indexings with any kind of bound (`None`, timestamps, time strings): the second one's bounds are
+    resolved against the begin and end of the intermediate slice. -/
+theorem getitem_getitem_spec (s : Src) (hdt : ∀ c, s = .cont c → 0 < c.dt) (a b c d : Bound)
+    (h0 : s.len ≠ 0) (h1 : (s.getitem a b).len ≠ 0) :
+    ((s.getitem a b).getitem c d).samples =
+      (s.samples.filter (inWin (resolve s.start s.stop s.start a) (resolve s.start s.stop s.stop b))).filter
+        (inWin (resolve (s.getitem a b).start (s.getitem a b).stop (s.getitem a b).start c)
+               (resolve (s.getitem a b).start (s.getitem a b).stop (s.getitem a b).stop d)) := by
+  have hdt' : ∀ c', s.getitem a b = .cont c' → 0 < c'.dt := by
+    unfold Src.getitem; rw [if_neg h0]; exact slice_keeps_dt s hdt _ _
+  rw [getitem_spec _ h1 hdt', getitem_spec s h0 hdt]
+
+example : (((Src.ts [(1, 0), (2, 1), (4, 2), (7, 3)]).getitem (.ts 2) .none).getitem (.rel 1) (.rel (-1))).samples
+    = [(4, 2)] := by decide
+
+
+/-- `s[a₁:b₁][a₂:b₂]…[aₙ:bₙ]` -/
+def chain (s : Src) (ws : List (Option Int × Option Int)) : Src :=
+  ws.foldl (fun s w => s.getitem (optBound w.1) (optBound w.2)) s
+
+/-- **Slicing composes, to any depth**: a chain of windows (integers or `None` anywhere) on a well-formed source
+    keeps exactly the samples that satisfy every bound given along the way — the intersection of the windows. -/
+theorem chain_spec (ws : List (Option Int × Option Int)) (s : Src) (h : s.WF) :
+    (chain s ws).samples = s.samples.filter (fun x => ws.all fun w => okLo w.1 x && okHi w.2 x) := by
+  induction ws generalizing s with
+  | nil =>
+    simp only [chain, List.foldl_nil, List.all_nil]
+    exact (List.filter_eq_self.mpr (by intros; rfl)).symm
+  | cons w ws ih =>
+    have := ih (s.getitem (optBound w.1) (optBound w.2)) (wf_getitem s h _ _)
+    unfold chain at this ⊢
+    rw [List.foldl_cons, this, getitem_opt_spec s h, List.filter_filter]
+    apply List.filter_congr
+    intro x _
+    simp only [List.all_cons]
+    rw [Bool.and_comm]
+
+/-- The order of the windows does not matter. -/
+theorem chain_perm (ws ws' : List (Option Int × Option Int)) (hp : ws.Perm ws') (s : Src) (h : s.WF) :
+    (chain s ws).samples = (chain s ws').samples := by
+  rw [chain_spec ws s h, chain_spec ws' s h]
+  apply List.filter_congr
+  intro x _
+  exact hp.all_eq
+
+/-- Slicing twice with the same window changes nothing more. -/
+theorem chain_idem (w : Option Int × Option Int) (s : Src) (h : s.WF) :
+    (chain s [w, w]).samples = (chain s [w]).samples := by
+  rw [chain_spec _ s h, chain_spec _ s h]
+  apply List.filter_congr
+  intro x _
+  simp
+
+example : (chain (.cont ⟨1000, 10, [0,1,2,3,4,5,6,7,8,9]⟩) [(some 1005, none), (none, some 1075), (some 1021, some 2000)]).samples
+    = [(1030, 3), (1040, 4), (1050, 5), (1060, 6), (1070, 7)] := by decide
+
+
+
+/-! ### non-vacuity of the hypotheses used in this round -/
+example : ([1, 2, 4] : List Int).Pairwise (· ≤ ·) := by decide
+example : (Src.tags (Tags.init [1, 2, 4] none none)).WF := tags_init_wf _ (by decide)
+example : (Src.tags ((Tags.init [1, 2, 4] none none).slice 2 9)).WF :=
+  wf_slice _ (tags_init_wf _ (by decide)) 2 9
+example : (0 : Int) < (⟨1000, 10, [0, 1, 2]⟩ : Cont).dt := by decide
+example : (⟨1000, 10, [0, 1, 2]⟩ : Cont).data ≠ [] := by decide
+example : ([(3, 0), (5, 1)] : List Sample) ≠ [] := by decide
+example : (units[3]?).map (·.2) = some 1000000000 := rfl
+example : TimeString ("1s".toList ++ ['\n']) 1000000000 := (matchFull_iff _ _).mp (by decide)
+example : (Src.ts [(3, 0), (5, 1), (5, 2), (9, 3)]).getitemFull (.slice (.int 4) (.str "-1ns") false)
+    = .ok (.ts [(5, 1), (5, 2)]) := by rfl
+example : (Src.ts [(5, 1), (5, 2)]).getitemFull (.mask [false, true]) = .ok (.ts [(5, 2)]) := by rfl
+example : (Src.cont ⟨7, 3, [0, 1, 2]⟩).len ≠ 0 ∧ ((Src.cont ⟨7, 3, [0, 1, 2]⟩).getitem (.ts 8) .none).len ≠ 0 := by decide
+
+
 end Verif.C01
